@@ -11,7 +11,7 @@ def L(what, bound):
             " A green run means no counter-example among the cases counted in the evidence file (exhaustive only where the evidence says so); it is not a proof.")
 CLAIMED = {
  "C01": (PBT + "; stateful / model-based: generated operation histories interpreted against a BTreeSet model after every step",
-         L("operation histories (add_arc, add_arc_weighted, remove_arc, toggle with valid and invalid arguments) on six representations from five kinds of start digraph are applied to the implementation and to a plain set-of-arcs model; after every step order, vertices, arcs, weights, size, has_arc and arc_weight over all pairs are compared, rejected calls must panic and change nothing, and the final digraph must == one built afresh.", "order <= 24/70 (1 case in 25 at 17..140; huge leg 200..3100 with <= 30 steps), <= 40/120 steps; thorough adds a libFuzzer campaign (target history, 12 x 400k runs)."),
+         L("operation histories (add_arc, add_arc_weighted, remove_arc, toggle with valid and invalid arguments) on six representations from five kinds of start digraph are applied to the implementation and to a plain set-of-arcs model; after every step order, vertices, arcs, weights, size, has_arc and arc_weight over all pairs are compared, rejected calls must panic and change nothing, and the final digraph must == one built afresh.", "order <= 24/70 (1 case in 25 at 17..140; huge leg 200..3100 with <= 30 steps), <= 40/120 steps; thorough adds a libFuzzer campaign (target history, 12 x 250k runs)."),
          "Trusts the BTreeMap model and the per-representation admission rule written from the property text; panic messages are not compared.",
          "DESIGN.md section 4, C01"),
  "C02": (PBT + " + " + ENUM + "; oracle: direct definitions over the abstract arc set",
@@ -59,7 +59,7 @@ CLAIMED = {
          "Order-0 digraphs are not exercised.",
          "DESIGN.md section 4, C12"),
  "C13": ("generated API programs (systematic sweep of every entry point x argument class + proptest random programs) executed in child processes built with AddressSanitizer and std's unsafe-precondition checks; crash isolation by journalled re-run; counting-allocator leak meter (growth must scale with 8/16/32 repetitions)",
-         L("every public entry point is called with vertex arguments in range, = order, = order+1, 1000 and usize::MAX on 21 base digraphs (all six representations, three non-contiguous AdjacencyMap vertex sets), alone (sweep) and in random programs of 1..6 calls; each call must return or unwind, the digraph must stay structurally valid and usable after a panic, and no call may grow the live heap in proportion to its repetitions.", "base order <= 8 (plus stars of 256..258 vertices and a CPU-count segment at 1, 2, 3 CPUs), <= 6 calls; the sweep is exhaustive over its stated entry-point x argument-class table; thorough adds a libFuzzer campaign (target api_program, 12 x 400k runs) and a Miri leg (4500 sweep programs under -Zmiri-num-cpus 1..4)."),
+         L("every public entry point is called with vertex arguments in range, = order, = order+1, 1000 and usize::MAX on 21 base digraphs (all six representations, three non-contiguous AdjacencyMap vertex sets), alone (sweep) and in random programs of 1..6 calls; each call must return or unwind, the digraph must stay structurally valid and usable after a panic, and no call may grow the live heap in proportion to its repetitions.", "base order <= 8 (plus stars of 256..258 vertices and a CPU-count segment at 1, 2, 3 CPUs), <= 6 calls; the sweep is exhaustive over its stated entry-point x argument-class table; thorough adds a libFuzzer campaign (target api_program, 12 x 250k runs) and a Miri leg (4500 sweep programs under -Zmiri-num-cpus 1..4)."),
          "Trusts AddressSanitizer + the unsafe-precondition checks to turn out-of-bounds accesses into aborts (in-allocation overreads that neither detects can be missed; the Miri replay leg narrows that gap for the committed corpus). Any unwinding panic counts as the documented panic. Allocation-heavy arguments are excluded; OOM is exit 2.",
          "DESIGN.md section 4, C13"),
  "C14": (ENUM + " of the parameter box + " + PBT + " for larger orders; oracle: closed-form arc sets",
